@@ -403,7 +403,7 @@ theorem stepRound_effect {t t' : T} {ge : Option Bool} {renv : Sprout.Env} {news
     (h : stepRound t ge renv news = .ok t') :
     t'.cfg = t.cfg ∧ t'.metaepoch = t.metaepoch ∧ t.pc = .post ∧ t'.pc = .head ∧
     (t.gscSeen = true → t'.gscSeen = true) ∧ (t.refused = true → t'.refused = true) ∧
-    ((t'.demes = t.demes ∧ t'.gscSeen = true ∧ t'.log = t.log ∧ t'.refused = t.refused) ∨
+    ((t'.demes = t.demes ∧ t'.gscSeen = true ∧ t'.log = t.log ∧ t'.refused = t.refused ∧ t'.levels = t.levels) ∨
      (t.gscSeen = false ∧ t'.gscSeen = false ∧ gscEval t ge t.cfg.gsc = some false ∧
       ∃ seeds t1, Sprout.getSeeds (view t) renv t.cfg.mech = some seeds ∧
         SproutEffect t t1 (seeds.flatMap fun c => c.inds.map fun i => (c.deme, i)) ∧
@@ -417,7 +417,7 @@ theorem stepRound_effect {t t' : T} {ge : Option Bool} {renv : Sprout.Env} {news
     · split at h
       · simp only [Except.ok.injEq] at h
         subst h
-        exact ⟨rfl, rfl, hpc, rfl, fun _ => rfl, fun hr => hr, Or.inl ⟨rfl, rfl, rfl, rfl⟩⟩
+        exact ⟨rfl, rfl, hpc, rfl, fun _ => rfl, fun hr => hr, Or.inl ⟨rfl, rfl, rfl, rfl, rfl⟩⟩
       · simp at h
     · rename_i hg
       split at h
@@ -461,7 +461,7 @@ theorem step_ext {t t' : T} {ev : Ev} (h : step t ev = .ok t') : Ext t.demes t'.
   | localRun id reqs its nfev => exact ⟨t'.demes, [], by simp, (stepLocal_effect h).demes⟩
   | round ge renv news =>
     obtain ⟨_, _, _, _, _, _, hcase⟩ := stepRound_effect h
-    rcases hcase with ⟨hd, _, _, _⟩ | ⟨_, _, _, seeds, t1, _, se, _, rfl⟩
+    rcases hcase with ⟨hd, _, _, _, _⟩ | ⟨_, _, _, seeds, t1, _, se, _, rfl⟩
     · rw [hd]; exact Ext.refl _
     · obtain ⟨old, nd, hd, hf, _⟩ := se.demes
       have hu := updateHibernation_forall2 t1 (seeds.map (·.deme))
